@@ -216,6 +216,31 @@ func writerSummaries(all []*ssa.Function) map[*ssa.Function]map[int]bool {
 	return sum
 }
 
+// modelledWrappers: library functions whose calls are replaced by an assumed model (externals.go), and the one external call
+// their body has to consist of for the model to describe them.
+var modelledWrappers = map[string]string{
+	"github.com/Azbesciak/RealDecisionMaker/lib/utils.DecodeToStruct": "github.com/mitchellh/mapstructure.Decode",
+}
+
+// paramBehind: the parameter a value is (directly, or loaded from its spill slot in naive form), or nil.
+func paramBehind(v ssa.Value) *ssa.Parameter {
+	switch v := v.(type) {
+	case *ssa.Parameter:
+		return v
+	case *ssa.UnOp:
+		if a, ok := v.X.(*ssa.Alloc); ok && v.Op.String() == "*" && a.Referrers() != nil {
+			for _, r := range *a.Referrers() {
+				if st, ok := r.(*ssa.Store); ok && st.Addr == a {
+					if p, ok := st.Val.(*ssa.Parameter); ok {
+						return p
+					}
+				}
+			}
+		}
+	}
+	return nil
+}
+
 var forbiddenCalls = map[string]string{
 	"time.Now": "reads the wall clock", "time.Since": "reads the wall clock", "time.Until": "reads the wall clock",
 	"math/rand.Float64": "process-wide random source", "math/rand.Int": "process-wide random source", "math/rand.Intn": "process-wide random source",
@@ -261,6 +286,32 @@ func (w *World) sweep() (scanned int, findings []sweepFinding) {
 	for _, fn := range all {
 		scanned++
 		isInit := fn.Name() == "init" || strings.HasPrefix(fn.Name(), "init#")
+		// a library function that the generator replaces by an assumed model must still be the thin wrapper the model describes
+		if want, modelled := modelledWrappers[funcKey(fn)]; modelled {
+			var got []string
+			okArgs := true
+			for _, b := range fn.Blocks {
+				for _, ins := range b.Instrs {
+					if c, ok := ins.(ssa.CallInstruction); ok {
+						if callee := c.Common().StaticCallee(); callee != nil {
+							got = append(got, callee.String())
+							if callee.String() == want {
+								for i, a := range c.Common().Args {
+									if i < len(fn.Params) && paramBehind(a) != fn.Params[i] {
+										okArgs = false
+									}
+								}
+							}
+						} else if _, isBuiltin := c.Common().Value.(*ssa.Builtin); !isBuiltin {
+							got = append(got, "<dynamic call>")
+						}
+					}
+				}
+			}
+			if len(got) != 1 || got[0] != want || !okArgs {
+				findings = append(findings, sweepFinding{shortFuncName(fn), "modelled_wrapper", fmt.Sprintf("is replaced by an assumed model of the single call %s(its parameters in order); its body now calls %v", want, got), w.prog.Fset.Position(fn.Pos()).String()})
+			}
+		}
 		for _, b := range fn.Blocks {
 			for _, ins := range b.Instrs {
 				pos := w.prog.Fset.Position(ins.Pos()).String()
